@@ -157,15 +157,16 @@ structure WellFormed (doc : Json) : Prop where
     (steps.map nameStr).Nodup ∧
     (∀ s ∈ steps, ∀ ds, Json.str ds ∈ stepDepends s → stripCombos ds ≠ nameStr s) ∧
     (∀ pre post s, steps = pre ++ s :: post → ∀ d ∈ stepDepends s, ∃ ds, d = .str ds ∧
-      (stripCombos ds ∈ pre.map nameStr ∨ stripCombos ds = sourceName))
+      (stripCombos ds ∈ pre.map nameStr ∨ stripCombos ds = sourceName)) ∧
+    (∀ s ∈ steps, nameStr s ≠ sourceName)
   params : ∃ ps, (doc.get? "global.parameters").getD (.obj []) = .obj ps ∧
     (∀ p ∈ ps, valid schemaFuel paramSchema p.2 = true) ∧ ∃ n, ∀ p ∈ ps, valuesLen p.2 = n
 
 /-- **Accept-soundness**: a specification that gets as far as a constructed
 `Study` satisfies the documented rules — schema-valid description, environment,
 steps and parameters (with the consequences proved above), at least one step,
-pairwise distinct step names, no self-dependency, every dependency naming a
-step defined before it, parameter value lists of one length.  Contrapositive:
+pairwise distinct step names, none of them the reserved `_source`, no self-dependency, every
+dependency naming a step defined before it, parameter value lists of one length.  Contrapositive:
 **a document violating any of these is not accepted.** -/
 theorem C13_accept_sound (doc : Json) (h : load schemas doc = .accepted) : WellFormed doc := by
   unfold load at h
@@ -203,7 +204,7 @@ theorem C13_accept_sound (doc : Json) (h : load schemas doc = .accepted) : WellF
                         · simp at h
                         · rename_i _ _ _ _ _ _
                           have hvs' := verifySteps_accepted schemas.step step_named steps [] (by simpa using hvs)
-                          obtain ⟨v1, v2, v3⟩ := hvs'
+                          obtain ⟨v1, v2, v3, v4⟩ := hvs'
                           have hedges := edgesOutcome_accepted steps [] h
                           obtain ⟨p1, n, _, p2⟩ := verifyParams_accepted schemas.param ps none hvp
                           have hsome : (Json.obj kvs).get? "study" = some (.arr steps) := by
@@ -213,7 +214,7 @@ theorem C13_accept_sound (doc : Json) (h : load schemas doc = .accepted) : WellF
                               rw [hg] at htruthy
                               simp [Json.truthy] at htruthy
                             | some v => rw [hg] at hst; simpa using hst
-                          refine ⟨h1, h2, ⟨steps, hsome, ?_, ?_, ?_, v3, ?_⟩, ⟨ps, hgl, p1, n, p2⟩⟩
+                          refine ⟨h1, h2, ⟨steps, hsome, ?_, ?_, ?_, v3, ?_, v4⟩, ⟨ps, hgl, p1, n, p2⟩⟩
                           · intro h0
                             subst h0
                             rw [hst] at htruthy
@@ -249,14 +250,44 @@ theorem stepDepends_strings (s : Json) (h : WFStep s) : ∀ d ∈ stepDepends s,
     simp only [Option.getD_some, arrItems] at hd
     exact hall d hd
 
-/-- **The only places an internal error can come from**: `_verify_dependencies`
-indexing a `path` / `git` / `spack` block, a non-string `sources` entry, or a
-step that took the reserved name `_source`.  Every other malformed document is
-either rejected with a diagnostic or accepted. -/
-theorem C13_no_internal_error_partial (doc : Json) (h : load schemas doc = .crash) :
+/-- **An environment block the schema accepts lists only strings under `sources`** (since the
+repair "fix: env.sources entries must be strings"; regenerated from the schema file). -/
+theorem C13_env_sources_strings (env : Json) (h : valid schemaFuel envSchema env = true) :
+    ∀ x ∈ arrItems ((env.get? "sources").getD (.arr [])), ∃ s, x = .str s := by
+  have h' : valid (11 + 1) envSchema env = true := h
+  obtain ⟨kvs, rfl⟩ := obj_of_tyOk (valid_type h' (by rfl))
+  intro x hx
+  cases hg : (Json.obj kvs).get? "sources" with
+  | none => rw [hg] at hx; simp [arrItems] at hx
+  | some v =>
+    rw [hg] at hx
+    simp only [Option.getD_some] at hx
+    obtain ⟨ssch, itsch, hss, hsty, hsit, hitty⟩ :
+        ∃ x it, envSchema.prop "sources" = some x ∧ x.ty = some .array ∧ x.items = some it ∧
+          it.ty = some .string := ⟨_, _, rfl, rfl, rfl, rfl⟩
+    have v_ok : valid (10 + 1) ssch v = true := valid_prop' h' hss v hg
+    obtain ⟨l, hl⟩ := arr_of_tyOk (valid_type v_ok hsty)
+    subst hl
+    have x_ok : valid (9 + 1) itsch x = true := valid_items v_ok hsit x (by simpa [arrItems] using hx)
+    exact str_of_tyOk (valid_type x_ok hitty)
+
+theorem sourcesOutcome_ne_crash : ∀ (l : List Json), (∀ x ∈ l, ∃ s, x = .str s) → sourcesOutcome l ≠ .crash := by
+  intro l
+  induction l with
+  | nil => intro _; simp [sourcesOutcome]
+  | cons a as ih =>
+    intro h
+    obtain ⟨s, rfl⟩ := h a (List.mem_cons_self ..)
+    simp only [sourcesOutcome]
+    split
+    · exact ih (fun x hx => h x (List.mem_cons_of_mem _ hx))
+    · simp
+
+/-- (auxiliary) the two candidate sources of an internal error in the model: the dependency
+blocks, and a `sources` entry that is not a string -/
+theorem C13_no_internal_error_aux (doc : Json) (h : load schemas doc = .crash) :
     verifyEnvNames ((doc.get? "env").getD defaultEnv) = .crash ∨
-    sourcesOutcome (arrItems ((((doc.get? "env").getD defaultEnv).get? "sources").getD (.arr []))) = .crash ∨
-    ∃ s ∈ arrItems ((doc.get? "study").getD (.arr [])), nameStr s = sourceName := by
+    sourcesOutcome (arrItems ((((doc.get? "env").getD defaultEnv).get? "sources").getD (.arr []))) = .crash := by
   unfold load at h
   cases doc with
   | obj kvs =>
@@ -285,31 +316,193 @@ theorem C13_no_internal_error_partial (doc : Json) (h : load schemas doc = .cras
                   · rename_i hc; exact absurd hc (verifyParams_ne_crash _ _ _)
                   · split at h
                     · simp at h
-                    · rename_i hc; exact Or.inr (Or.inl hc)
+                    · rename_i hc; exact Or.inr hc
                     · split at h
                       · simp at h
                       · split at h
                         · simp at h
-                        · right; right
+                        · exfalso
                           obtain ⟨s, hs, hc⟩ := edgesOutcome_crash steps [] h
-                          refine ⟨s, by simpa [arrItems] using hs, ?_⟩
+                          have hacc := verifySteps_accepted schemas.step step_named steps []
+                            (by simpa using hvs)
                           rcases hc with hc | ⟨d, hd, hnot⟩
-                          · exact hc
-                          · exfalso
-                            have hv := (verifySteps_accepted schemas.step step_named steps []
-                              (by simpa using hvs)).1 s hs
+                          · exact hacc.2.2.2 s hs hc
+                          · have hv := hacc.1 s hs
                             obtain ⟨ds, hds⟩ := stepDepends_strings s (C13_step_wellformed s hv) d hd
                             exact hnot ds hds
                 | _ => simp [hgl] at h
             | _ => simp [hst] at h
   | _ => simp at h
 
-/-- **An accepted specification keeps every step, in order**: unless a step
-took the reserved name `_source`, the study's step list is the document's. -/
-theorem C13_accepted_steps (doc : Json) (h : load schemas doc = .accepted)
-    (hres : ∀ s ∈ arrItems ((doc.get? "study").getD (.arr [])), nameStr s ≠ sourceName) :
+theorem load_crash_env_valid (doc : Json) (h : load schemas doc = .crash) :
+    valid schemaFuel schemas.env ((doc.get? "env").getD defaultEnv) = true := by
+  unfold load at h
+  cases doc with
+  | obj kvs =>
+    simp only at h
+    split at h
+    · simp at h
+    · split at h
+      · simp at h
+      · rename_i hv; simpa using hv
+  | _ => simp at h
+
+/-- **The only place an internal error could still come from**: the name loop of
+`_verify_dependencies` (ruled out as well by `C13_no_internal_error` below).  Every other malformed
+document is either rejected with a diagnostic or accepted.  (A non-string `sources` entry and a step that
+took the reserved name `_source` used to be two more; both are refused since the repairs
+"fix: env.sources entries must be strings" and "fix: reject the reserved step name '_source'".) -/
+theorem C13_no_internal_error_partial (doc : Json) (h : load schemas doc = .crash) :
+    verifyEnvNames ((doc.get? "env").getD defaultEnv) = .crash := by
+  rcases C13_no_internal_error_aux doc h with k | k
+  · exact k
+  · exact absurd k (sourcesOutcome_ne_crash _ (C13_env_sources_strings _ (load_crash_env_valid doc h)))
+
+/-! ### no internal error at all -/
+
+/-- a dependency block whose entries are mappings with a string `name` -/
+def NamedEntries (block : Json) : Prop :=
+  ∃ l, block = .arr l ∧ ∀ it ∈ l, ∃ kvs n, it = .obj kvs ∧ (Json.obj kvs).get? "name" = some (.str n)
+
+theorem depNames_of_named (block : Json) (h : NamedEntries block) :
+    ∃ names, depNames block = some names ∧ ∀ nm ∈ names, ∃ n, nm = .str n := by
+  obtain ⟨l, rfl, hl⟩ := h
+  simp only [depNames]
+  induction l with
+  | nil => exact ⟨[], rfl, by simp⟩
+  | cons it rest ih =>
+    obtain ⟨kvs, n, rfl, hn⟩ := hl it (List.mem_cons_self ..)
+    obtain ⟨names, hnames, hall⟩ := ih (fun x hx => hl x (List.mem_cons_of_mem _ hx))
+    simp only [Json.get?, Option.map_eq_some_iff] at hn
+    obtain ⟨kv, hkv, hkv2⟩ := hn
+    refine ⟨.str n :: names, ?_, ?_⟩
+    · rw [List.mapM_cons]
+      simp only [hkv, Option.map_some, hkv2]
+      rw [hnames]
+      rfl
+    · intro nm hnm
+      rcases List.mem_cons.mp hnm with e | e
+      · exact ⟨n, e⟩
+      · exact hall nm e
+
+/-- the inner loop over the names of one block never crashes on string names -/
+theorem names_fold_ne_crash : ∀ (names : List Json) (a : Option (List Json) × Outcome),
+    (∀ nm ∈ names, ∃ n, nm = .str n) → a.2 ≠ .crash →
+    (names.foldl (fun (a : Option (List Json) × Outcome) nm =>
+      match a with
+      | (none, o) => (none, o)
+      | (some s, _) =>
+        if !hashable nm then (none, .crash)
+        else if s.any (Json.beq nm) then (none, .rejected)
+        else (some (s ++ [nm]), .accepted)) a).2 ≠ .crash := by
+  intro names
+  induction names with
+  | nil => intro a _ h; exact h
+  | cons nm rest ih =>
+    intro a hall ha
+    simp only [List.foldl_cons]
+    apply ih _ (fun x hx => hall x (List.mem_cons_of_mem _ hx))
+    obtain ⟨n, rfl⟩ := hall nm (List.mem_cons_self ..)
+    obtain ⟨o, out⟩ := a
+    cases o with
+    | none => exact ha
+    | some s =>
+      simp only [hashable, Bool.not_true, Bool.false_eq_true, ↓reduceIte]
+      split <;> simp
+
+theorem block_named {f : Nat} {bsch it nsch : Schema} {block : Json}
+    (h : valid (f + 1 + 1 + 1) bsch block = true) (hty : bsch.ty = some .array)
+    (hit : bsch.items = some it) (hity : it.ty = some .object) (hreq : "name".toList ∈ it.required)
+    (hn : it.prop "name" = some nsch) (hnty : nsch.ty = some .string) : NamedEntries block := by
+  obtain ⟨l, rfl⟩ := arr_of_tyOk (valid_type h hty)
+  refine ⟨l, rfl, ?_⟩
+  intro x hx
+  have x_ok : valid (f + 1 + 1) it x = true := valid_items h hit x hx
+  obtain ⟨kvs, rfl⟩ := obj_of_tyOk (valid_type x_ok hity)
+  obtain ⟨v, hv⟩ := has_of_required (k := "name") x_ok hreq
+  have v_ok : valid (f + 1) nsch v = true := valid_prop' x_ok hn v hv
+  obtain ⟨n, rfl⟩ := str_of_tyOk (valid_type v_ok hnty)
+  exact ⟨kvs, n, rfl, hv⟩
+
+/-- one dependency block of a schema-valid environment: absent, or named entries -/
+theorem env_blocks_named (env : Json) (h : valid schemaFuel envSchema env = true) (deps : Json)
+    (hd : env.get? "dependencies" = some deps) :
+    (∀ b, deps.get? "paths" = some b → NamedEntries b) ∧ (∀ b, deps.get? "git" = some b → NamedEntries b) := by
+  have h' : valid (10 + 1 + 1) envSchema env = true := h
+  obtain ⟨kvs, rfl⟩ := obj_of_tyOk (valid_type h' (by rfl))
+  obtain ⟨dsch, hds, hdty, ⟨psch, pit, pn, hp1, hp2, hp3, hp4, hp5, hp6, hp7⟩,
+      ⟨gsch, git, gn, hg1, hg2, hg3, hg4, hg5, hg6, hg7⟩⟩ :
+      ∃ x, envSchema.prop "dependencies" = some x ∧ x.ty = some .object ∧
+        (∃ b it n, x.prop "paths" = some b ∧ b.ty = some .array ∧ b.items = some it ∧
+          it.ty = some .object ∧ "name".toList ∈ it.required ∧ it.prop "name" = some n ∧
+          n.ty = some .string) ∧
+        (∃ b it n, x.prop "git" = some b ∧ b.ty = some .array ∧ b.items = some it ∧
+          it.ty = some .object ∧ "name".toList ∈ it.required ∧ it.prop "name" = some n ∧
+          n.ty = some .string) :=
+    ⟨_, rfl, rfl, ⟨_, _, _, rfl, rfl, rfl, rfl, by decide, rfl, rfl⟩,
+      ⟨_, _, _, rfl, rfl, rfl, rfl, by decide, rfl, rfl⟩⟩
+  have d_ok : valid (9 + 1 + 1) dsch deps = true := valid_prop' h' hds deps hd
+  obtain ⟨dkvs, rfl⟩ := obj_of_tyOk (valid_type d_ok hdty)
+  constructor
+  · intro b hb
+    have b_ok : valid (7 + 1 + 1 + 1) psch b = true := valid_prop' d_ok hp1 b hb
+    exact block_named b_ok hp2 hp3 hp4 hp5 hp6 hp7
+  · intro b hb
+    have b_ok : valid (7 + 1 + 1 + 1) gsch b = true := valid_prop' d_ok hg1 b hb
+    exact block_named b_ok hg2 hg3 hg4 hg5 hg6 hg7
+
+/-- one block of `_verify_dependencies` never crashes when the block (if present) has named entries -/
+theorem block_step_ne_crash (deps : Json) (ty : String) (acc : Option (List Json) × Outcome)
+    (hb : ∀ b, deps.get? ty = some b → NamedEntries b) (ha : acc.2 ≠ .crash) :
+    (depBlockStep deps acc ty).2 ≠ .crash := by
+  obtain ⟨o, out⟩ := acc
+  unfold depBlockStep
+  cases o with
+  | none => exact ha
+  | some seen =>
+    simp only
+    cases hg : deps.get? ty with
+    | none => simp
+    | some block =>
+      obtain ⟨names, hn, hall⟩ := depNames_of_named block (hb block hg)
+      simp only [hn]
+      exact names_fold_ne_crash names _ hall (by simp)
+
+/-- **`_verify_variables` + `_verify_dependencies` never fail internally on an environment block
+the schema accepted** (since the repair "fix: _verify_dependencies no longer crashes on
+schema-valid dependency blocks") -/
+theorem verifyEnvNames_ne_crash (env : Json) (h : valid schemaFuel envSchema env = true) :
+    verifyEnvNames env ≠ .crash := by
+  unfold verifyEnvNames
+  simp only
+  split
+  · simp
+  · cases hd : env.get? "dependencies" with
+    | none => simp
+    | some deps =>
+      obtain ⟨hp, hg⟩ := env_blocks_named env h deps hd
+      simp only [List.foldl_cons, List.foldl_nil]
+      exact block_step_ne_crash deps "git" _ hg (block_step_ne_crash deps "paths" _ hp (by simp))
+
+/-- **A specification is never refused by an internal error**: whatever the document, loading it
+(validation, environment, steps, parameters, study construction) ends in acceptance or in a
+diagnosed rejection - at full strength since the three repairs of `_verify_steps`, the `sources`
+schema and `_verify_dependencies` (before them: `C13_no_internal_error_partial` with three
+exceptions, each a proved counterexample). -/
+theorem C13_no_internal_error (doc : Json) : load schemas doc ≠ .crash := by
+  intro h
+  exact verifyEnvNames_ne_crash _ (load_crash_env_valid doc h) (C13_no_internal_error_partial doc h)
+
+/-- **An accepted specification keeps every step, in order**: the study's step list is the
+document's (no step can take the reserved name `_source` any more, which used to make a step
+vanish). -/
+theorem C13_accepted_steps (doc : Json) (h : load schemas doc = .accepted) :
     stepNames doc = (arrItems ((doc.get? "study").getD (.arr []))).map nameStr ∧ (stepNames doc).Nodup := by
-  obtain ⟨steps, hs, _, _, hnodup, _, _⟩ := (C13_accept_sound doc h).steps
+  obtain ⟨steps, hs, _, _, hnodup, _, _, hres0⟩ := (C13_accept_sound doc h).steps
+  have hres : ∀ s ∈ arrItems ((doc.get? "study").getD (.arr [])), nameStr s ≠ sourceName := by
+    intro s hsm
+    rw [hs] at hsm
+    exact hres0 s (by simpa [arrItems] using hsm)
   have hfil : stepNames doc = (arrItems ((doc.get? "study").getD (.arr []))).map nameStr := by
     unfold stepNames
     apply List.filter_eq_self.mpr
@@ -329,29 +522,30 @@ def baseSteps : Json :=
 
 def baseDescription : Json := .obj [("name".toList, .str "s".toList), ("description".toList, .str "d".toList)]
 
-/-- a schema-valid `spack` dependency block is an internal error -/
-theorem C13_counterexample_spack :
+/-- a schema-valid `spack` dependency block used to be an internal error; it is accepted now
+(and, as before, ignored by `get_study_environment`) -/
+theorem C13_spack_block_accepted :
     load schemas (.obj [("description".toList, baseDescription), ("study".toList, baseSteps),
       ("env".toList, .obj [("dependencies".toList, .obj [("spack".toList,
-        .obj [("type".toList, .str "t".toList), ("package_name".toList, .str "p".toList)])])])]) = .crash := by
+        .obj [("type".toList, .str "t".toList), ("package_name".toList, .str "p".toList)])])])]) = .accepted := by
   decide +kernel
 
-/-- a non-string `sources` entry is an internal error -/
-theorem C13_counterexample_source :
+/-- a non-string `sources` entry used to be an internal error; it is refused now -/
+theorem C13_non_string_source_rejected :
     load schemas (.obj [("description".toList, baseDescription), ("study".toList, baseSteps),
-      ("env".toList, .obj [("sources".toList, .arr [.int 5])])]) = .crash := by
+      ("env".toList, .obj [("sources".toList, .arr [.int 5])])]) = .rejected := by
   decide +kernel
 
-/-- a step named `_source` closes a cycle (with a dependency) or vanishes (without) -/
-theorem C13_counterexample_reserved_name :
+/-- a step named `_source` used to close a cycle (with a dependency) or vanish (without); both
+documents are refused now -/
+theorem C13_reserved_name_rejected :
     let step (deps : List Json) : Json :=
       .obj [("name".toList, .str "_source".toList), ("description".toList, .str "d".toList),
             ("run".toList, .obj [("cmd".toList, .str "ls".toList), ("depends".toList, .arr deps)])]
     let doc (deps : List Json) : Json :=
       .obj [("description".toList, baseDescription),
             ("study".toList, .arr (arrItems baseSteps ++ [step deps]))]
-    load schemas (doc [.str "a".toList]) = .crash ∧
-    load schemas (doc []) = .accepted ∧ stepNames (doc []) = ["a".toList] := by
+    load schemas (doc [.str "a".toList]) = .rejected ∧ load schemas (doc []) = .rejected := by
   decide +kernel
 
 /-! ## non-vacuity: the repository's smallest kind of specification is accepted -/
